@@ -104,11 +104,11 @@ IO_EVENTS = ('unlink', 'mkdirp', 'create', 'chmod', 'write', 'readdir', 'rmdir',
 
 
 def hook_fault(job):
-    sc, threads, k = job
+    sc, threads, k, kind = job
     w = setup(sc)
     try:
         trace = w + '.trace'
-        env = {'RAPIDQUILT_VERIF_TRACE': trace, 'RAPIDQUILT_VERIF_FAIL_AT': str(k)}
+        env = {'RAPIDQUILT_VERIF_TRACE': trace, 'RAPIDQUILT_VERIF_FAIL_AT': str(k), 'RAPIDQUILT_VERIF_FAIL_KIND': kind}
         if threads > 1:
             env['RAPIDQUILT_VERIF_SCHEDULE'] = round_robin(sc)
         rc, so, se = ws.push(w, FLAGS + ['--threads', threads], env=env)
@@ -175,10 +175,10 @@ def check(prop, tier):
                 if n == 0:
                     raise ToolError('hook trace is empty: hooks not compiled in?')
                 res.cov['parts']['hook/%s/threads%d' % (sc['name'], t)] = {'output_operations': n, 'fault_free_exit': rc}
-                jobs += [(sc, t, k) for k in range(1, n + 1)]
+                jobs += [(sc, t, k, kind) for k in range(1, n + 1) for kind in ('other', 'denied')]
             outs = pool.map(hook_fault, jobs, chunksize=4)
             nf = 0
-            for (sc, t, k), (probs, info) in zip(jobs, outs):
+            for (sc, t, k, kind), (probs, info) in zip(jobs, outs):
                 if probs is None:
                     res.diagnostics.append('%s threads %d: %s' % (sc['name'], t, info))
                     continue
@@ -186,7 +186,7 @@ def check(prop, tier):
                 if len(samples) < 4 and k % 7 == 3:
                     samples.append({'scenario': sc['name'], 'threads': t, 'injector': 'hook', 'k': k, 'failed_operation': info})
                 for cat, msg in probs:
-                    res.violation(cat + ':' + info[0], msg + ' (hook injector, %s, threads %d, k=%d)' % (sc['name'], t, k),
+                    res.violation(cat + ':' + info[0], msg + ' (hook injector, %s error, %s, threads %d, k=%d)' % (kind, sc['name'], t, k),
                                   {'scenario': sc, 'threads': t, 'fail_at': k, 'operation': info})
             total += nf
             res.cov['parts']['hook-injector'] = {'faulted_runs': nf}
@@ -195,8 +195,9 @@ def check(prop, tier):
             sjobs = []
             for sc, (rc, targets) in zip(SCENARIOS, t1):
                 res.cov['parts']['strace/%s' % sc['name']] = {'output_syscalls': len(targets)}
+                quick_errnos = {'unlink': ('EACCES', 'EIO'), 'mkdir': ('EACCES',), 'openat': ('EACCES', 'ENOSPC'), 'write': ('ENOSPC',), 'fchmod': ('EPERM',), 'rmdir': ('EACCES',)}
                 for i, (call, ordinal, rel) in enumerate(targets):
-                    for errno in (('ENOSPC',) if tier == 'quick' else ('ENOSPC', 'EIO', 'EACCES')):
+                    for errno in (quick_errnos[call] if tier == 'quick' else ('ENOSPC', 'EIO', 'EACCES', 'EPERM', 'EROFS')):
                         sjobs.append((sc, call, ordinal, rel, errno))
             souts = pool.map(strace_fault, sjobs, chunksize=2)
             for job, (probs, info) in zip(sjobs, souts):
